@@ -41,7 +41,7 @@ class FGen:
             return copy.deepcopy(r.choice(self.pool))
         kinds = ["string", "integer", "boolean", "enum"]
         if keys: kinds += ["ref", "ref"]
-        if len(keys) >= 2 and r.random() < 0.5: kinds += ["union"]
+        if len([x for x in keys if x != "#"]) >= 2 and r.random() < 0.5: kinds += ["union"]
         if depth > 0: kinds += ["array", "nullable", "object", "object", "object"]
         k = r.choice(kinds)
         if k == "string": s = self.title({"type": "string"}, 0.15)
@@ -53,7 +53,7 @@ class FGen:
             s = self.title({"$ref": "#" if key == "#" else "#/definitions/" + key}, 0.1)
         elif k == "union":
             # an untagged union of references: its finalisation looks at the finalised state of the types it refers to
-            s = self.title({"oneOf": [{"$ref": "#/definitions/" + x} for x in r.sample([x for x in keys if x != "#"] or keys, 2)]}, 0.2)
+            s = self.title({"oneOf": [{"$ref": "#/definitions/" + x} for x in r.sample([x for x in keys if x != "#"], 2)]}, 0.2)
         elif k == "array": s = self.title({"type": "array", "items": self.schema(depth - 1, keys)}, 0.2)
         elif k == "nullable":
             inner = self.schema(depth - 1, [], byvalue_refs)
